@@ -117,7 +117,7 @@ class C01(ExprProp):
 
 
 class C10(ExprProp):
-    """Theorems C10_floor/ceil/round(+_char)/builtin_*/arity_*: num-rational's integer algorithms (mirrored in the model) equal the order-theoretic floor, ceiling, round-half-away and round-to-n-digits for every rational; unit carried through; wrong arity is an error. Correspondence on a boundary grid."""
+    """Theorems C10_floor/ceil/round(+_char)/builtin_*/arity_*: num-rational's integer algorithms (mirrored in the model) equal the order-theoretic floor, ceiling, round-half-away and round-to-n-digits for every rational; unit carried through; wrong arity is an error. Correspondence on a boundary grid. End to end: `C10_query` (Props/C10Query.lean) — calls written as queries over arbitrary argument expressions."""
     id = "C10"
     needs_knobs = True
     extra_modules = ["Anything.Props.C10Query"]
